@@ -239,6 +239,13 @@ func (s *Cron) Add(j *Job) error {
 	// one, say when it was made from what '/get' gave for another
 	// job, and 'update' deletes the entry it names.)
 	j.TId = ""
+	// The same goes for the rest of our bookkeeping.  What '/get'
+	// gives for a one-shot job that has fired says that the job is
+	// to be evicted (and how its request went): 'set' would file
+	// the new job for eviction, and 'work' would evict it without
+	// ever making its request.
+	j.Evict = false
+	j.Work = nil
 	if err := j.init(); err != nil {
 		log.Printf("Cron.Add init error: %v", err)
 		return err
